@@ -477,11 +477,15 @@ Close(e) ==
     /\ last' = [a |-> "close", p |-> e[1], side |-> e[2]]
     /\ UNCHANGED <<wire, lh, zw>>
 
+\* lo_*: the socket is bound to 127.0.0.1 instead of the host's address; the datagram still
+\* crosses the link, so the limit is that of the destination path, not loopback_mtu
+UdpModes == {"sendto", "send", "lo_sendto", "lo_send"}
+
 \* A UDP socket on host 1 sends n bytes to an unbound port of host 2, either with
 \* send_to (mode "sendto") or connected: connect + try_send (mode "send").  Both end in
 \* udp::send_to, which rejects payloads above MTU - IP header - 8 with EMSGSIZE.
 Udp(n, mode) ==
-    /\ "udp" \in Ops /\ mode \in {"sendto", "send"}
+    /\ "udp" \in Ops /\ mode \in UdpModes
     /\ LET tooBig == n > UdpMax
            p == [src |-> 1, dst |-> 2, sp |-> 0, dp |-> 0, seq |-> 0, ack |-> 0, fl |-> "U", win |-> 0,
                  data |-> [i \in 1..n |-> 0]]
@@ -596,7 +600,7 @@ AWrite        == NR /\ (\E e \in Ports \X Writers, n \in WriteSizes : WriteMC(e,
 ARead         == NR /\ (\E e \in Ports \X Readers, n \in ReadSizes : ReadMC(e, n)) /\ Pf
 AShutdown     == NR /\ (\E e \in Ports \X Writers : ShutdownMC(e)) /\ Pf
 AClose        == NR /\ (\E e \in EPs : Close(e)) /\ Pf
-AUdp          == NR /\ (\E n \in UdpSizes, m \in {"sendto", "send"} : UdpMC(n, m)) /\ Pf
+AUdp          == NR /\ (\E n \in UdpSizes, m \in UdpModes : UdpMC(n, m)) /\ Pf
 AEgress       == NR /\ EgressAll /\ Pf
 ADeliver      == NR /\ (\E i \in 1..Len(wire) : Deliver(i)) /\ Pf
 ADrop         == NR /\ (\E i \in 1..Len(wire) : DropPk(i)) /\ Pf
